@@ -44,6 +44,10 @@ type c15Action struct {
 	Kind string `json:"kind"` // delete | remove | none | ghost (delete ghost object number cl)
 	Cl   int    `json:"cl"`
 	Eps  []int  `json:"eps"` // remove: endpoints taken out of the server list
+	// "drain, then remove": before the removal (requests already in flight) the endpoints of Unhealthy
+	// start failing their probes, then one sync marks the endpoints of Drain disabled:true
+	Drain     []int `json:"drain"`
+	Unhealthy []int `json:"unhealthy"`
 }
 
 // an UpstreamCluster object whose name or server names collide with an admitted cluster: the sync
@@ -85,6 +89,9 @@ type clObs15 struct {
 	Resolves []bool    `json:"resolves"` // manager.Get(name), manager.Get(alias...) still give the object of before
 	CtxDone  bool      `json:"ctxdone"`  // ClusterInfo.Context() is done
 	Eps      []epObs15 `json:"eps"`
+	// after every sync before the scenario proper, per endpoint: [in the endpoint map,
+	// context of the EndpointInfo that was in the map before that sync is done]
+	Pre [][][2]bool `json:"pre"`
 }
 
 type c15Obs struct {
@@ -145,12 +152,12 @@ func runScenario(c c15Case) interface{} {
 	defer g.close()
 	defer g.cleanup(all, false)
 
-	object := func(ci int, skip map[int]bool) *proxyv1alpha1.UpstreamCluster {
+	object := func(ci int, skip map[int]bool, disabled map[int]bool) *proxyv1alpha1.UpstreamCluster {
 		var servers []serverSpec
 		subsets := [][]string{}
 		for e, s := range eps[ci] {
 			if !skip[e] {
-				servers = append(servers, serverSpec{URL: s.url})
+				servers = append(servers, serverSpec{URL: s.url, Disabled: disabled[e]})
 			}
 			subsets = append(subsets, []string{s.url})
 		}
@@ -158,7 +165,22 @@ func runScenario(c c15Case) interface{} {
 		o.Spec.SecureServing.ServerNames = c.Clusters[ci].Aliases
 		return o
 	}
+	preObs := make([][][][2]bool, len(c.Clusters))
 	for ci, cl := range c.Clusters {
+		prevObj := make([]*clusters.EndpointInfo, len(eps[ci]))
+		observe := func() {
+			info, ok := g.ctrl.Manager.Get(cl.Name)
+			row := make([][2]bool, len(eps[ci]))
+			for e, s := range eps[ci] {
+				var cur *clusters.EndpointInfo
+				if ok {
+					cur, _ = info.Endpoints.Load(s.url)
+				}
+				row[e] = [2]bool{cur != nil, prevObj[e] != nil && prevObj[e].Context().Err() != nil}
+				prevObj[e] = cur
+			}
+			preObs[ci] = append(preObs[ci], row)
+		}
 		for _, states := range cl.Pre {
 			var servers []serverSpec
 			subsets := [][]string{}
@@ -194,8 +216,10 @@ func runScenario(c c15Case) interface{} {
 				}
 				return true
 			})
+			observe()
 		}
-		must(g.apply(object(ci, nil)))
+		must(g.apply(object(ci, nil, nil)))
+		observe()
 	}
 	// ghost objects arrive after the clusters they collide with (each with an upstream of its own)
 	var ghostStubs []*stubUp
@@ -349,6 +373,36 @@ func runScenario(c c15Case) interface{} {
 	for i, s := range all {
 		hits0[i], _, _ = s.counts()
 	}
+	// drain: first the endpoints that shall be unhealthy fail a probe, then one sync disables the drained ones
+	drainMap := map[int]bool{}
+	if c.Action.Kind == "delete" || c.Action.Kind == "remove" {
+		ci := c.Action.Cl
+		for _, e := range c.Action.Unhealthy {
+			s := eps[ci][e]
+			s.mu.Lock()
+			s.autoCode = 500
+			s.mu.Unlock()
+			for _, t := range g.tickersOf(s.url) {
+				if !t.Stopped() {
+					t.Fire()
+				}
+			}
+			x := einfos[ci][e]
+			waitFor(60*time.Second, "endpoint unhealthy", func() bool {
+				_, healthy, _, _ := clusters.VerifEndpointFlags(x)
+				return !healthy
+			})
+		}
+		for _, e := range c.Action.Drain {
+			drainMap[e] = true
+		}
+		if len(drainMap) > 0 {
+			must(g.apply(object(ci, nil, drainMap)))
+		}
+	}
+	for i, s := range all {
+		hits0[i], _, _ = s.counts()
+	}
 	tA := time.Now()
 	switch c.Action.Kind {
 	case "delete":
@@ -360,7 +414,7 @@ func runScenario(c c15Case) interface{} {
 		for _, e := range c.Action.Eps {
 			skip[e] = true
 		}
-		must(g.apply(object(c.Action.Cl, skip)))
+		must(g.apply(object(c.Action.Cl, skip, drainMap)))
 	}
 	t0 := time.Now()
 	obs := c15Obs{ActionMs: int(t0.Sub(tA) / time.Millisecond)}
@@ -376,6 +430,7 @@ func runScenario(c c15Case) interface{} {
 			cur, ok := infos[ci].Endpoints.Load(s.url)
 			co.Eps = append(co.Eps, epObs15{InMap: ok && cur == einfos[ci][e], CtxDone: einfos[ci][e].Context().Err() != nil})
 		}
+		co.Pre = preObs[ci]
 		obs.Clusters = append(obs.Clusters, co)
 	}
 
@@ -447,7 +502,7 @@ func runScenario(c c15Case) interface{} {
 		k := 0
 		for ci := range einfos {
 			for _, e := range einfos[ci] {
-				if h, _, _ := all[k].counts(); h <= hits0[k] && e.Context().Err() == nil {
+				if h, _, _ := all[k].counts(); h <= hits0[k] && e.Context().Err() == nil && !e.IstDisabled() {
 					pending = true
 				}
 				k++
